@@ -35,22 +35,23 @@ type vfcCmd struct {
 }
 
 type vfcAct struct {
-	Refresh bool     `json:"r,omitempty"`
+	Refresh bool            `json:"r,omitempty"`
 	Ev      vfdoubles.MigEv `json:"e,omitempty"`
 }
 
 type vfcScn struct {
-	Name    string           `json:"name"`
-	N       int              `json:"nodes"`
-	Empty   bool             `json:"empty_last"`
-	Keys    []string         `json:"keys"`
-	Mode    string           `json:"mode"` // sync | pipe | txn | txnpipe
-	Window  int              `json:"window"`
-	Batches [][]vfcCmd       `json:"batches"`
-	Between map[int][]vfcAct `json:"between,omitempty"` // before the puts of batch i
-	During  []vfdoubles.Sched       `json:"during,omitempty"`  // before the At-th data request
-	MidPut  map[string]bool  `json:"midput,omitempty"`  // "i.j": refresh lands before put j of batch i
-	Adv     bool             `json:"adversarial,omitempty"`
+	Name    string            `json:"name"`
+	N       int               `json:"nodes"`
+	Empty   bool              `json:"empty_last"`
+	Keys    []string          `json:"keys"`
+	Mode    string            `json:"mode"` // sync | pipe | txn | txnpipe
+	Window  int               `json:"window"`
+	Batches [][]vfcCmd        `json:"batches"`
+	Between map[int][]vfcAct  `json:"between,omitempty"` // before the puts of batch i
+	During  []vfdoubles.Sched `json:"during,omitempty"`  // before the At-th data request
+	MidPut  map[string]bool   `json:"midput,omitempty"`  // "i.j": refresh lands before put j of batch i
+	Adv     bool              `json:"adversarial,omitempty"`
+	Stall   map[int]int       `json:"stall,omitempty"` // batch i: node held (slow) while the first Exec of batch i runs
 }
 
 type vfcAttempt struct {
@@ -71,7 +72,8 @@ type vfcResult struct {
 	Attempts []vfcAttempt
 	Owner0   []int // initial owner per key
 	Notes    []string
-	Dropped  []int // commands Put accepted without routing them anywhere
+	Dropped  []int    // commands Put accepted without routing them anywhere
+	InFlight []string // Exec returned while a node still held unprocessed commands of that batch
 }
 
 func vfcErrClass(err error) string {
@@ -115,9 +117,10 @@ func vfcRun(scn *vfcScn) (*vfcResult, error) {
 	// Batch / batch2 bracketed by Put("multi") … Put("exec") — which the cluster client does
 	// not send, it only confines the batch to one node — with redirect following switched off
 	senderTxn := scn.Mode == "stxn" || scn.Mode == "stxnpipe"
+	noFollow := senderTxn || scn.Mode == "syncnf" // syncnf: plain blocking batches, handleMoveErr/handleAskErr off
 	c, err := NewCluster(&Options{
 		StartNodes: d.Addrs()[:m], ConnTimeout: 2 * time.Second, ReadTimeout: 30 * time.Second, WriteTimeout: 30 * time.Second,
-		KeepAlive: 8, AliveTime: time.Minute, HandleMoveError: !senderTxn, HandleAskError: !senderTxn,
+		KeepAlive: 8, AliveTime: time.Minute, HandleMoveError: !noFollow, HandleAskError: !noFollow,
 	})
 	if err != nil {
 		return nil, err
@@ -160,7 +163,7 @@ func vfcRun(scn *vfcScn) (*vfcResult, error) {
 	build := func(i int, first bool) (common.CmdBatcher, *vfcAttempt) {
 		var b common.CmdBatcher
 		switch scn.Mode {
-		case "sync", "stxn":
+		case "sync", "stxn", "syncnf":
 			b = c.NewBatcher(false)
 		case "pipe", "stxnpipe":
 			b = c.NewBatcher(true)
@@ -283,7 +286,7 @@ func vfcRun(scn *vfcScn) (*vfcResult, error) {
 	}
 
 	switch scn.Mode {
-	case "sync", "txn", "stxn":
+	case "sync", "txn", "stxn", "syncnf":
 	outer:
 		for i := range scn.Batches {
 			between(i)
@@ -293,7 +296,29 @@ func vfcRun(scn *vfcScn) (*vfcResult, error) {
 					break
 				}
 				d.Log(fmt.Sprintf("D:%d:%s", i, mtag))
-				_, err := b.Exec()
+				var err error
+				if node, ok := scn.Stall[i]; ok && try == 0 {
+					// one node of the batch is slow: it holds what it receives. Exec must not
+					// return while that node still holds commands of this batch. (The stall is
+					// lifted after 300 ms if Exec is still waiting - what the unchanged code
+					// does; the time only bounds how long a correct Exec is kept waiting.)
+					d.Stall(node)
+					ch := make(chan error, 1)
+					go func() { _, e := b.Exec(); ch <- e }()
+					select {
+					case err = <-ch:
+						if n := d.HeldCount(); n > 0 {
+							res.InFlight = append(res.InFlight, fmt.Sprintf("batch %d: Exec returned (%s) while node %d still held %d unprocessed command(s) of it",
+								i, vfcErrClass(err), node, n))
+						}
+						d.Unstall(node)
+					case <-time.After(300 * time.Millisecond):
+						d.Unstall(node)
+						err = <-ch
+					}
+				} else {
+					_, err = b.Exec()
+				}
 				finish(at, b, err)
 				if err == nil {
 					break
@@ -368,6 +393,9 @@ type vfcViol struct{ what, detail string }
 func vfcMonitor(scn *vfcScn, res *vfcResult) []vfcViol {
 	var out []vfcViol
 	txn := scn.Mode == "txn" || scn.Mode == "txnpipe" || scn.Mode == "stxn" || scn.Mode == "stxnpipe"
+	for _, m := range res.InFlight {
+		out = append(out, vfcViol{"exec-returned-with-commands-in-flight", m})
+	}
 	for _, id := range res.Dropped {
 		out = append(out, vfcViol{"put-silently-dropped", fmt.Sprintf("Put of cmd %d returned nil but the command was not routed to any node", id)})
 	}
